@@ -2,7 +2,6 @@ package main
 
 import (
 	"context"
-	"fmt"
 	"sort"
 	"sync"
 	"time"
@@ -295,7 +294,18 @@ func (g *gen) pipeScript(idx int) error {
 		}
 		d, err := settle()
 		if err != nil {
-			return fmt.Errorf("%s after %v: %w", desc, a, err)
+			// a goroutine of the library that stays runnable with nothing to do (a spinning loop)
+			// or never reaches a wait state: report the script that got there as a failing input
+			var js []any
+			for i, b := range script {
+				js = append(js, map[string]any{"action": b.kind, "msg": []int{b.m.id, b.m.kind, b.m.val}, "observed": obs[i]})
+			}
+			js = append(js, map[string]any{"action": a.kind, "msg": []int{a.m.id, a.m.kind, a.m.val}, "observed": "no quiescence"})
+			g.o.Directs = append(g.o.Directs, vcoq.Direct{What: "after the last action of this script a goroutine of the library never came to rest: " + err.Error(),
+				Class: "no-quiescence", Replay: map[string]any{"kind": "pipe-script", "subscription": desc, "backpressure": bp,
+					"updates_only": updatesOnly, "stages": stages, "script": js}})
+			g.hard += 100 // stop generating: every further case would run next to the runaway goroutine
+			return nil
 		}
 		script = append(script, a)
 		o := observe(d)
